@@ -343,6 +343,23 @@ func cfbRunSession(tr *vk.Trace, s cfbSession, classes map[string]int) {
 			src := input[pos : pos+n]
 			pos += n
 			mode := cfbModes[rng.Intn(len(cfbModes))]
+			if n >= 1 && rng.Intn(6) == 0 {
+				// a call the stream refuses (output shorter than input; crypto/cipher: "should panic"), recovered by the
+				// caller, who then makes the call properly: the refused call is no part of the message
+				dl := []int{0, n - 1, n / 2, 15, 16, 17, 33}[rng.Intn(7)]
+				if dl >= n {
+					dl = n - 1
+				}
+				short := make([]byte, dl, dl+[]int{0, 0, 1, n, 64}[rng.Intn(5)])
+				refused, _ := catch(func() { stream.XORKeyStream(short, src) })
+				if !refused {
+					// not refused: what such a call means is not specified - the session ends here, unjudged
+					tr.Add(map[string]any{"k": "abandon"})
+					return
+				}
+				tr.Add(map[string]any{"k": "refused", "n": n, "dlen": dl, "dir": dir})
+				classes[fmt.Sprintf("aes/%s/refused/%s", dir, cfbLenClass(n, 16))]++
+			}
 			var dst []byte
 			p, msg := catch(func() { dst = cfbCall(stream, src, mode, rng.Intn(3)) })
 			if p {
@@ -679,6 +696,7 @@ func runC10(env *vk.Env) {
 		"AES itself is trusted input (crypto/aes computes the keystream byte of every logged window); TLC judges that the window is the specification's register and that dst = src XOR keystream",
 		"partial overlaps of dst and src, which the cipher.Stream contract forbids, are not generated",
 		"bytes of dst beyond len(src) are not inspected",
+		"a call the stream refuses by panicking (output shorter than input; crypto/cipher.Stream: 'should panic') and that the caller recovers from is no part of the message: the register is what it was, the calls that follow are judged against it; a too-short output that is NOT refused ends the session unjudged (what such a call means is not specified)",
 		"the toy block cipher E is defined in CFB8.tla and transcribed in c10.go (cfbToy); block sizes must make 2*BS a power of two (requirement of the implementation)",
 	}
 	if rconLeg("toy") {
